@@ -105,8 +105,11 @@ func (b *Bytes) Set(src Blob, destStart int64) (n int, err error) {
 	if destStart > int64(b.Len()) {
 		return 0, fmt.Errorf("Offset out of bounds: %d", destStart)
 	}
+	srcBytes := src.Bytes() // read before locking: 'src' may be a view sharing this blob's mutex
 	b.mu.Lock()
-	n = copy(b.bytes[destStart:], src.Bytes())
+	if destStart <= int64(len(b.bytes)) {
+		n = copy(b.bytes[destStart:], srcBytes)
+	}
 	b.mu.Unlock()
 	return n, nil
 }
